@@ -52,6 +52,9 @@ def check_geometry(ctx):
                 except A.Unsupported as ex:
                     bad.setdefault("obligation not discharged: make_children cannot be interpreted (%s)" % ex, []).append("K=%s d=%d" % (K, d))
                     continue
+                except A.PathCrash as ex:
+                    bad.setdefault("obligation not discharged: the constructor cannot be interpreted / raises (%s)" % ex, []).append("K=%s d=%d" % (K, d))
+                    continue
                 for oracle, res in explored:
                     runs += 1
                     I = res.I
